@@ -371,6 +371,11 @@ func (evpool *Pool) CheckEvidence(evList types.EvidenceList) error {
 	for idx, ev := range evList {
 		ok := evpool.fastCheck(ev)
 
+		// evidence that is still in the pending db may have expired since it was added
+		if ok && evpool.isExpired(ev.Height(), ev.Time()) {
+			return types.NewErrInvalidEvidence(ev, errors.New("evidence is too old"))
+		}
+
 		if !ok {
 			// check that the evidence isn't already committed
 			if evpool.isCommitted(ev) {
